@@ -69,9 +69,9 @@ theorem digest_lists_hold_only_atoms (md5 : List Str → Str) :
     (∀ c : CdsArgs, (cdsDigestArgs c).all listsAtomic = true) ∧
     (∀ f : FeatArgs, (featDigestArgs f).all listsAtomic = true) ∧
     (∀ v : VarArgs, (varDigestArgs v).all listsAtomic = true) ∧
-    (∀ (g : GeneArgs) (cs : Int) (a : List PyVal), geneDigestArgs md5 g cs = some a → a.all listsAtomic = true) ∧
-    (∀ (c : FcArgs) (cs : Int) (a : List PyVal), fcDigestArgs md5 c cs = some a → a.all listsAtomic = true) ∧
-    (∀ (c : VcArgs) (cs : Int) (a : List PyVal), vcDigestArgs md5 c cs = some a → a.all listsAtomic = true) :=
+    (∀ (g : GeneArgs) (cs : Frame) (a : List PyVal), geneDigestArgs md5 g cs = some a → a.all listsAtomic = true) ∧
+    (∀ (c : FcArgs) (cs : Frame) (a : List PyVal), fcDigestArgs md5 c cs = some a → a.all listsAtomic = true) ∧
+    (∀ (c : VcArgs) (cs : Frame) (a : List PyVal), vcDigestArgs md5 c cs = some a → a.all listsAtomic = true) :=
   ⟨tx_args_atomic md5, cds_args_atomic, feat_args_atomic, var_args_atomic, gene_args_atomic md5, fc_args_atomic md5,
    vc_args_atomic md5⟩
 
@@ -129,7 +129,7 @@ theorem span_stream_sensitive (a b a' b' : Nat) (rest rest' : List PyVal)
   exact ⟨this.1, this.2.1⟩
 
 /-- the span is the first digested member of every collection class -/
-theorem collections_digest_span_first (md5 : List Str → Str) (cs : Int) :
+theorem collections_digest_span_first (md5 : List Str → Str) (cs : Frame) :
     (∀ (g : GeneArgs) (a : List PyVal), geneDigestArgs md5 g cs = some a →
       ∃ sp, spanOf (g.transcripts.map TxArgs.bounds) = some sp ∧ a.head? = some (spanVal sp.1 sp.2 cs)) ∧
     (∀ (c : FcArgs) (a : List PyVal), fcDigestArgs md5 c cs = some a →
@@ -155,8 +155,11 @@ theorem collections_digest_span_first (md5 : List Str → Str) (cs : Int) :
     | some sp => rw [hs] at h; simp only [Option.map_some, Option.some.injEq] at h; subst h; exact ⟨sp, rfl, rfl⟩
 
 /-- F-C07a as it shows in the digest: the same gene content on a chunk starting at `cs ≠ 0` digests another span
-    than on the whole chromosome (the collection classes digest `chunk_relative_location`). -/
-theorem f_c07a_witness : pyStr (spanVal 20 50 0) ≠ pyStr (spanVal 20 50 10) := by decide +kernel
+    than on the whole chromosome (the collection classes digest `chunk_relative_location`), and yet another one on a
+    MINUS-strand chunk (mirrored at the chunk end, strand `-`). -/
+theorem f_c07a_witness :
+    pyStr (spanVal 20 50 Frame.none) ≠ pyStr (spanVal 20 50 ⟨10, 90, false⟩) ∧
+    pyStr (spanVal 20 50 ⟨10, 90, false⟩) ≠ pyStr (spanVal 20 50 ⟨10, 90, true⟩) := by decide +kernel
 
 /-! ## T3 — dictionary export followed by import restores the object -/
 
@@ -206,18 +209,18 @@ theorem feat_dict_roundtrip (md5 : List Str → Str) (o : FeatObj) (h : FeatWF o
     featFromDict md5 (featToDict o) = .ok o := feat_roundtrip md5 o h
 theorem var_dict_roundtrip (md5 : List Str → Str) (o : VarObj) (h : VarWF o) :
     varFromDict md5 (varToDict o) = .ok o := var_roundtrip md5 o h
-theorem gene_dict_roundtrip (md5 : List Str → Str) (cs : Int) (o : GeneObj) (h : GeneWF o) :
+theorem gene_dict_roundtrip (md5 : List Str → Str) (cs : Frame) (o : GeneObj) (h : GeneWF o) :
     geneFromDict md5 cs (geneToDict o) = .ok o := gene_roundtrip md5 cs o h
-theorem fc_dict_roundtrip (md5 : List Str → Str) (cs : Int) (o : FcObj) (h : FcWF o) :
+theorem fc_dict_roundtrip (md5 : List Str → Str) (cs : Frame) (o : FcObj) (h : FcWF o) :
     fcFromDict md5 cs (fcToDict o) = .ok o := fc_roundtrip md5 cs o h
-theorem vc_dict_roundtrip (md5 : List Str → Str) (cs : Int) (o : VcObj) (h : VcWF o) :
+theorem vc_dict_roundtrip (md5 : List Str → Str) (cs : Frame) (o : VcObj) (h : VcWF o) :
     vcFromDict md5 cs (vcToDict o) = .ok o := vc_roundtrip md5 cs o h
 
 /-- T3-image: the state assumed above is exactly what the importer establishes — EVERY object `from_dict` accepts,
     from any dictionary whatsoever (alias Biotype names, unsorted / repeated qualifier values, unsorted variants,
-    GUIDs given or absent), is restored unchanged by export → import.  (`cs` = start of the chunk parent handed to
-    `from_dict`, 0 otherwise.) -/
-theorem imported_objects_survive_export_import (md5 : List Str → Str) (cs : Int) :
+    GUIDs given or absent), is restored unchanged by export → import.  (`cs` = frame (start, end, strand) of the chunk parent
+    handed to `from_dict`, `Frame.none` otherwise.) -/
+theorem imported_objects_survive_export_import (md5 : List Str → Str) (cs : Frame) :
     (∀ d o, txFromDict md5 d = .ok o → txFromDict md5 (txToDict o) = .ok o) ∧
     (∀ d o, cdsFromDict md5 d = .ok o → cdsFromDict md5 (cdsToDict o) = .ok o) ∧
     (∀ d o, featFromDict md5 d = .ok o → featFromDict md5 (featToDict o) = .ok o) ∧
@@ -235,7 +238,9 @@ theorem tx_dict_roundtrip_image (md5 : List Str → Str) (o : TxObj) (h : TxWF o
   rw [tx_roundtrip md5 o h]; rfl
 
 /-- T3-parent: `convert_parent_dict_to_parent(_parent_to_dict())` restores each of the four parent situations
-    (none / sequence-less / whole chromosome / sequence chunk), whatever bounds the collection has. -/
+    (none / sequence-less / whole chromosome / sequence chunk), whatever bounds the collection has; for a sequence
+    chunk this includes its STRAND (plus, minus or unstranded: `ParentDesc.chunk … strand`), its start, end, name,
+    alphabet and sequence. -/
 theorem parent_dict_roundtrip (p : ParentDesc) (b : Int × Int) (h : ParentWF p) :
     parentFromDict (parentToDict p b) = .ok p := parent_roundtrip p b h
 
@@ -254,7 +259,7 @@ theorem ac_dict_roundtrip (md5 : List Str → Str) (o : AcObj) (h : AcWF md5 o) 
     collections, without a parent location) has no `start` attribute; `to_dict` raises AttributeError. -/
 theorem f_c19f_witness (md5 : List Str → Str) :
     acToDict ⟨[], [], [], none, none, [], none, none, none, none, none, .none,
-      acGuidOf md5 none 0 none none [] none []⟩ false = .error .attributeError := rfl
+      acGuidOf md5 none Frame.none none none [] none []⟩ false = .error .attributeError := rfl
 
 /- FULL STATEMENT (does NOT hold — F-C08f): `parent_dict_roundtrip` for every chromosome parent.
    `ParentWF (.chrom seq alphabet id)` demands `id ≠ none`; missing: the id-less chromosome parent. -/
@@ -301,6 +306,8 @@ example : AcWF (fun _ => []) exAc ∧ exAc.bounds = some (10, 14) ∧ exAc.genes
 
 example : ParentWF (.chrom "ACGT".toList "NT_STRICT".toList (some "chr1".toList)) := ⟨by decide, by decide⟩
 example : ParentWF (.chunk "ACGT".toList "NT_STRICT".toList "chr1".toList 10 14 .plus) := by
+  show "ACGT".toList ≠ []; decide
+example : ParentWF (.chunk "ACGT".toList "NT_STRICT".toList "chr1".toList 10 14 .minus) := by
   show "ACGT".toList ≠ []; decide
 example : ParentWF (.bare (some "chr1".toList) false) := Or.inr ⟨_, rfl, by decide⟩
 
